@@ -885,7 +885,7 @@ fn run_r(c: &Case) -> Obs {
             return o.with_verdict(Err(("mtr-end-position-differs".into(), format!("{ctx} mt={} st={}", mt.end_cpos, st.end_cpos))));
         }
     } else {
-        // a corrupt block: an error from read, or (frame-level, F9) from finish; never silence
+        // a corrupt block or frame: an error from a later call, never silence ...
         if !rerr && fin.is_ok() {
             return o.with_verdict(Err((
                 "mtr-corrupt-block-no-error".into(),
@@ -895,8 +895,9 @@ fn run_r(c: &Case) -> Obs {
         if st.read_err.is_none() {
             return o.with_verdict(Err(("str-corrupt-block-no-error".into(), ctx)));
         }
-        let frame_level = cspec.ends_with(":z") || cspec.ends_with(":t");
-        if !frame_level && mt.read_err != st.read_err {
+        // ... and, like the single-threaded reader, from the read that reaches it (frame-level
+        // errors included since the repair of mtr-frame-error-discarded-by-pause)
+        if mt.read_err != st.read_err {
             return o.with_verdict(Err((
                 "mtr-block-error-differs-from-st".into(),
                 format!("{ctx} mt={:?} st={:?}", mt.read_err, st.read_err),
@@ -1372,7 +1373,8 @@ fn generate(rng: &mut Rng, tier: &str, w: &mut CaseWriter) {
                 }
             }
         };
-        // frames from a frame-level error on are never submitted
+        // a frame-level error is answered by the reader thread itself (no inflate task) and
+        // nothing after it is submitted
         let nsub = match cspec.split_once(':') {
             Some((cj, "z" | "t")) => cj.parse::<usize>().unwrap(),
             _ => frames.len(),
